@@ -91,3 +91,90 @@ Proof.
   - intros Hf Hg. apply negb_false_iff in Hf, Hg. rewrite Hf, Hg. reflexivity.
   - intros Hd. destruct (String.eqb (fh_pkg f) ""), (String.eqb (fh_pkg g) ""); cbn in *; try reflexivity; congruence.
 Qed.
+
+(* ---- the one-level cases: the same constructor on both sides, equal scalar attributes, identical components *)
+Lemma basic_identical_spec : forall y_is_basic x_kind y_kind,
+  gen_basic_identical y_is_basic x_kind y_kind = y_is_basic && Z.eqb x_kind y_kind.
+Proof. intros. unfold gen_basic_identical. destruct y_is_basic; reflexivity. Qed.
+
+(* arrays: a length is unknown exactly when it is NEGATIVE (the type checker's mark for a length it could not evaluate);
+   0 is a length like any other *)
+Lemma array_identical_spec : forall y_is_array x_len y_len elem,
+  gen_array_identical y_is_array x_len y_len elem =
+  y_is_array && ((x_len <? 0)%Z || (y_len <? 0)%Z || Z.eqb x_len y_len) && elem.
+Proof.
+  intros. unfold gen_array_identical.
+  destruct y_is_array, elem, (x_len <? 0)%Z, (y_len <? 0)%Z, (Z.eqb x_len y_len); reflexivity.
+Qed.
+
+Lemma known_lengths_must_be_equal : forall n m elem, (0 <= n)%Z -> (0 <= m)%Z ->
+  gen_array_identical true n m elem = Z.eqb n m && elem.
+Proof.
+  intros n m e Hn Hm. rewrite array_identical_spec.
+  apply Z.ltb_ge in Hn, Hm. rewrite Hn, Hm. reflexivity.
+Qed.
+
+Lemma slice_identical_spec : forall y_is_slice elem, gen_slice_identical y_is_slice elem = y_is_slice && elem.
+Proof. intros. unfold gen_slice_identical. destruct y_is_slice; reflexivity. Qed.
+
+Lemma pointer_identical_spec : forall y_is_pointer elem, gen_pointer_identical y_is_pointer elem = y_is_pointer && elem.
+Proof. intros. unfold gen_pointer_identical. destruct y_is_pointer; reflexivity. Qed.
+
+Lemma map_identical_spec : forall y_is_map key elem, gen_map_identical y_is_map key elem = y_is_map && key && elem.
+Proof. intros. unfold gen_map_identical. destruct y_is_map, key; reflexivity. Qed.
+
+Lemma chan_identical_spec : forall y_is_chan x_dir y_dir elem,
+  gen_chan_identical y_is_chan x_dir y_dir elem = y_is_chan && Z.eqb x_dir y_dir && elem.
+Proof. intros. unfold gen_chan_identical. destruct y_is_chan; reflexivity. Qed.
+
+Lemma signature_identical_spec : forall y_is_signature x_variadic y_variadic params results,
+  gen_signature_identical y_is_signature x_variadic y_variadic params results =
+  y_is_signature && Bool.eqb x_variadic y_variadic && params && results.
+Proof. intros. unfold gen_signature_identical. destruct y_is_signature; reflexivity. Qed.
+
+Lemma Z_of_N_eqb a b : Z.eqb (Z.of_N a) (Z.of_N b) = N.eqb a b.
+Proof.
+  destruct (N.eqb_spec a b) as [->|Hne]; [apply Z.eqb_refl|].
+  apply Z.eqb_neq. intro H. apply Hne. apply N2Z.inj. exact H.
+Qed.
+
+(* the model's cases (head_x on two equal constructors + all2 identical_x on the components) are the translated clauses *)
+Lemma model_one_level_cases_are_translated : forall a b c d,
+  (forall k l, identical_x (T (HBasic k) []) (T (HBasic l) []) = gen_basic_identical true (Z.of_N k) (Z.of_N l)) /\
+  (forall n m, identical_x (T (HArray n) [a]) (T (HArray m) [b]) = gen_array_identical true n m (identical_x a b)) /\
+  identical_x (T HSlice [a]) (T HSlice [b]) = gen_slice_identical true (identical_x a b) /\
+  identical_x (T HPointer [a]) (T HPointer [b]) = gen_pointer_identical true (identical_x a b) /\
+  identical_x (T HMap [a; c]) (T HMap [b; d]) = gen_map_identical true (identical_x a b) (identical_x c d) /\
+  (forall e f, identical_x (T (HChan e) [a]) (T (HChan f) [b]) = gen_chan_identical true (Z.of_N e) (Z.of_N f) (identical_x a b)) /\
+  (forall v w, identical_x (T (HSig v) [a; c]) (T (HSig w) [b; d]) =
+               gen_signature_identical true v w (identical_x a b) (identical_x c d)).
+Proof.
+  intros a b c d.
+  repeat split; intros;
+    rewrite ?basic_identical_spec, ?array_identical_spec, ?slice_identical_spec, ?pointer_identical_spec, ?map_identical_spec,
+            ?chan_identical_spec, ?signature_identical_spec, ?Z_of_N_eqb;
+    cbn [identical_x unalias_top head_x all2 andb]; rewrite ?andb_true_r, ?andb_assoc; reflexivity.
+Qed.
+
+(* a different constructor on the other side is never identical *)
+Lemma other_constructor_is_different : forall n m e x y v w p r k l d f,
+  gen_basic_identical false k l = false /\ gen_array_identical false n m e = false /\ gen_slice_identical false e = false /\
+  gen_pointer_identical false e = false /\ gen_map_identical false x y = false /\ gen_chan_identical false d f e = false /\
+  gen_signature_identical false v w p r = false.
+Proof. intros. repeat split. Qed.
+
+Lemma one_level_cases_spec :
+  (forall b k l, gen_basic_identical b k l = b && Z.eqb k l) /\
+  (forall b e, gen_slice_identical b e = b && e) /\ (forall b e, gen_pointer_identical b e = b && e) /\
+  (forall b k e, gen_map_identical b k e = b && k && e) /\
+  (forall b d f e, gen_chan_identical b d f e = b && Z.eqb d f && e) /\
+  (forall b v w p r, gen_signature_identical b v w p r = b && Bool.eqb v w && p && r).
+Proof.
+  repeat apply conj; intros.
+  - apply basic_identical_spec.
+  - apply slice_identical_spec.
+  - apply pointer_identical_spec.
+  - apply map_identical_spec.
+  - apply chan_identical_spec.
+  - apply signature_identical_spec.
+Qed.
